@@ -161,12 +161,14 @@ def _skip(code, pairs, j):
     return bisect.bisect_left(code, close) + 1
 
 
-TAG_RE = re.compile(r'\[(C\d\d(?:\s*,\s*C\d\d)*)\]')
+TAG_RE = re.compile(r'\[(~?C\d\d(?:\s*,\s*~?C\d\d)*)\]')
 
 
 def line_tags(text):
-    """tags per line: `// [C02,C07]` comments.  A tag comment on a line that opens a block (`proof { // [C07]`,
-    `if c { // [C02]`) applies to every line of that block."""
+    """tags per line: `// [C02,C07,~C06]` comments.  A tag comment on a line that opens a block (`proof { // [C07]`,
+    `if c { // [C02]`) applies to every line of that block.  `Cxx` = the clause states (part of) property Cxx: its
+    failure is a violation of Cxx.  `~Cxx` = the proof of Cxx rests on the clause (support): its failure alone leaves
+    Cxx undecided; it becomes a violation only with a concrete counterexample on the real code."""
     tags = {}
     lines = text.split('\n')
     for no, l in enumerate(lines, 1):
@@ -272,7 +274,7 @@ def classify(res, text, linemap, units):
     tags = line_tags(text)
     for k, v in hint_block_tags(text, linemap).items():
         tags.setdefault(k, [])
-        tags[k] = tags[k] + [x for x in v if x not in tags[k]]
+        tags[k] = tags[k] + [x for x in v if x not in tags[k] and '~' + x not in tags[k]]
     lines = text.split('\n')
     failures = []
     undecided = []
@@ -328,9 +330,13 @@ def classify(res, text, linemap, units):
             if s.get('file_name', '').endswith('mirror.rs') and ('failed' in lab or msg == 'assertion failed'):
                 clause_lines += list(range(s['line_start'], s['line_end'] + 1))
         ftags = set()
+        stags = set()
         for cl in clause_lines + [s['line_start'] for s in mirror_spans]:
             for t in tags.get(cl, []):
-                ftags.add(t)
+                if t.startswith('~'):
+                    stags.add(t[1:])
+                else:
+                    ftags.add(t)
         kind = 'functional'
         ext_spans = [s for s in sp if not s.get('file_name', '').endswith('mirror.rs')]
         callee = ''
@@ -351,14 +357,14 @@ def classify(res, text, linemap, units):
             ftags = set(ftags) | {'C03'}
             if any(c in callee for c in UTF8_CTORS):
                 ftags.add('C02')
-        elif not ftags:
-            ftags = set(units.get(fn, {}).get('props', []))
-        if not ftags:
+        elif not ftags and not stags:
+            ftags = set(units.get(fn, {}).get('direct', units.get(fn, {}).get('props', [])))
+        if not ftags and not stags:
             undecided.append('failure that no property claims (function %s, %s): treated as undecided' % (fn, msg))
         clause_text = '; '.join(lines[cl - 1].strip() for cl in clause_lines[:3])
         failures.append({'function': fn, 'message': msg, 'kind': kind, 'line': loc['line_start'],
                          'origin': linemap[loc['line_start'] - 1], 'clause': clause_text,
-                         'tags': sorted(ftags), 'rendered': d.get('rendered', '')})
+                         'tags': sorted(ftags), 'support': sorted(stags - ftags), 'rendered': d.get('rendered', '')})
     if res['json'] is None:
         undecided.append('verus produced no JSON (rc=%s): %s' % (res['rc'], res['stderr'][-2000:]))
     else:
@@ -714,6 +720,35 @@ def decide(pid, cfg, tier, seed, units, work, ev):
                 print('failed obligation: %s / %s :: %s' % (f['function'], f['message'], f['clause'][:200]))
             print('VIOLATION property=%s replay=%s%s' % (pid, rpath, suffix))
             return 1
+    sup = [f for f in all_fail if pid in f.get('support', []) and pid not in f['tags']]
+    if sup and not all_undec:
+        # Only obligations that *support* this property failed (the property's own clauses still verify, but they were
+        # proved against contracts that no longer hold).  That alone is not an alarm: the property is undecided unless the
+        # witness search shows a concrete violation of it on the real code.
+        w = None
+        try:
+            import witness
+            w = witness.search_support(pid, sup, seed, work, units)
+        except Exception as e:
+            log('witness search failed: %s' % e)
+        for f in sup[:4]:
+            print('supporting obligation failed: %s / %s :: %s' % (f['function'], f['message'], f['clause'][:160]))
+        if w:
+            ev['violations'] = 1
+            ev['coverage']['decided_by'] = 'supporting obligation failed + witness on the real code'
+            rdir = os.path.join(VERIF, 'replays') if 'VERIF_NO_EVIDENCE' not in os.environ else os.path.join(work, 'replays')
+            os.makedirs(rdir, exist_ok=True)
+            h = hashlib.sha256(json.dumps([w.get('input'), w.get('driver')]).encode()).hexdigest()[:10]
+            rpath = os.path.join(rdir, '%s-%s.json' % (pid, h))
+            json.dump({'property': pid, 'failed_obligations': [
+                {'obligation': '%s / %s' % (f['function'], f['message']), 'clause': f['clause'], 'tags': ['~' + pid],
+                 'origin': f['origin'], 'features': f['features'], 'verifier_output': f['rendered']} for f in sup], 'witness': w},
+                open(rpath, 'w'), indent=1)
+            print('counterexample on the real code: %s  expected %s  actual %s' % (w.get('input'), w.get('expected'), w.get('actual')))
+            print('VIOLATION property=%s replay=%s' % (pid, rpath))
+            return 1
+        print('UNDECIDED property=%s (a contract this property rests on no longer verifies; no concrete violation of %s found)' % (pid, pid))
+        return 2
     if all_undec:
         # The verifier could not decide (typically: the code moved away from the annotated baseline and the front end
         # rejects the mirror).  That is never an alarm by itself.  The witness search is run on the real code: a
